@@ -68,6 +68,8 @@ func (r *Result) Absorb(out simrt.Outcome) {
 		r.V = &Violation{Kind: "deadlock", Signature: "deadlock", Detail: out.Detail}
 	case out.Hang:
 		r.V = &Violation{Kind: "hang", Signature: "hang", Detail: out.Detail}
+	case out.Livelock:
+		r.V = &Violation{Kind: "livelock", Signature: "livelock", Detail: out.Detail}
 	}
 }
 
